@@ -25,7 +25,7 @@ def obligations(tier):
     obs = []
     plans = [('h_vec_ops', 'vec__ensure_capacity', 7, 3 if tier == 'quick' else 4, 'vector: push(const&) / push(&&) / pop / resize(size+2) / clear / resize(size/2) / resize(2*capacity+1), then copy, move, assign, accessors'),
              ('h_svec_ops', 'svec__ensure_capacity', 6, 3, 'small_vector<T,4>: push_back / emplace_back / pop_back / resize(size+3) / resize(size/2) / resize(2*capacity+1) with accessors after every step'),
-             ('h_ilist_ops', 'ilist_erase', 7, 3 if tier == 'quick' else 4, 'intrusive_list over 6 nodes: push_back / push_front / pop_front / pop_back / erase(2nd) / insert(before 2nd) / splice(2 nodes at end); forward, backward, in_list checked after every step'),
+             ('h_ilist_ops', 'ilist_erase', 7, 3, 'intrusive_list over 6 nodes: push_back / push_front / pop_front / pop_back / erase(2nd) / insert(before 2nd) / splice(2 nodes at end); forward, backward, in_list checked after every step'),
              ('h_list_ops', 'list_pop_front', 3, 3 if tier == 'quick' else 5, 'list: emplace_back(int) / emplace_back(const T&) / front+pop_front; destroyed non-empty'),
              ('h_stk_ops', 'stk_push', 3, 3 if tier == 'quick' else 5, 'stack: push / emplace / top+pop')]
     for h, fn, nkinds, length, what in plans:
